@@ -716,6 +716,13 @@ func TestC14Schedule(t *testing.T) {
 
 // ---- real goroutines under the race detector ---------------------------------------------
 
+// insertIfAny delivers a batch unless it is empty (callers of InsertChain never hand over an empty batch).
+func insertIfAny(n *sim.Node, batch []*nom.DetailedMomentum) {
+	if len(batch) > 0 {
+		_, _ = n.Bridge.InsertChain(batch)
+	}
+}
+
 func TestC14Race(t *testing.T) {
 	pbt.Check(t, "C14", func(c *pbt.C) {
 		h := sim.NewHist(c, genSpec(c), genWorldOpts(c))
@@ -767,32 +774,35 @@ func TestC14Race(t *testing.T) {
 				h.ActIntent()
 			case 2:
 				h.Produce(0)
-				_, _ = a2.Bridge.InsertChain(a.Range(a2.Height()+1, a.Height()))
+				insertIfAny(a2, a.Range(a2.Height()+1, a.Height()))
 			default:
 				// a competing momentum arrives by sync while the pillar of this node produces for the
 				// same height: both run on their own goroutines
 				if a2.Height() != a.Height() {
-					_, _ = a2.Bridge.InsertChain(a.Range(a2.Height()+1, a.Height()))
+					insertIfAny(a2, a.Range(a2.Height()+1, a.Height()))
 				}
 				h2.ActTransfer()
 				if !h2.Produce(0) {
 					break
 				}
 				batch := a2.Range(a.Height()+1, a2.Height())
+				if len(batch) == 0 {
+					break // nothing to deliver (callers never hand over an empty batch)
+				}
 				var wg2 sync.WaitGroup
 				wg2.Add(1)
 				go func() {
 					defer wg2.Done()
-					_, _ = a.Bridge.InsertChain(batch)
+					insertIfAny(a, batch)
 				}()
 				_ = a.Produce(0) // may lose the race: then the own momentum is refused
 				wg2.Wait()
 				a.LastMomentumErr = nil
 				// bring both to one chain again (the longer one wins, else keep a2's)
 				if a.Height() >= a2.Height() {
-					_, _ = a2.Bridge.InsertChain(a.Range(2, a.Height()))
+					insertIfAny(a2, a.Range(2, a.Height()))
 				} else {
-					_, _ = a.Bridge.InsertChain(a2.Range(2, a2.Height()))
+					insertIfAny(a, a2.Range(2, a2.Height()))
 				}
 				c.Class("pillar-vs-sync-at-same-height")
 			}
